@@ -12,6 +12,7 @@
 #define PRE 16          /* canary bytes before the header */
 #define POST 32         /* payload/canary bytes after the header */
 #define MAXLEN 64
+#define GBUF 1064        /* generic-descriptor buffer: quadlets 0..265 */
 static int g_off;            /* C15: header starts at a 16-byte boundary + g_off */
 static int g_lite;           /* reduced lattices for the many-worlds sweeps */
 #define HOFF (PRE + g_off)
@@ -127,15 +128,41 @@ static void c01_val(uint64_t v, void* vctx)
     c01_case(1, c->fmt, c->fld, c->path, c->bgi, -1, v);
 }
 
+/* sub 4: read, flip one bit of the field, read again - inside one world function */
+static void c01_reread_case(int fmt, int fld, int path, int bgi, int bit)
+{
+    const RowFmt* F = &g_fmts[fmt];
+    const RowField* R = &F->f[fld];
+    Obj o; obj_fill(&o, F->len, BG[bgi]);
+    char cs[160];
+    SETCS("C01", 4, fmt, fld, path, bgi, bit, 0);
+    unsigned k = (unsigned)(R->off + bit);
+    uint64_t e1 = ref_get(obj_hdr(&o), (unsigned)R->off, (unsigned)R->w);
+    Obj o2 = o; flip_bit(obj_hdr(&o2), k);
+    uint64_t e2 = ref_get(obj_hdr(&o2), (unsigned)R->off, (unsigned)R->w);
+    uint8_t out8[8]; volatile uint64_t r1 = 0; uint64_t r2 = 0;
+    g_cnt.cases++; g_cnt.nontrivial++;
+    TRY_CALL(r1 = w_get2((uint64_t)fmt, (uint64_t)fld, (uint64_t)path, obj_hdr(&o), k >> 3, 1u << (7 - (k & 7)), out8), { return; });
+    g_cnt.transitions += 2;
+    for (int i = 0; i < 8; i++) r2 = (r2 << 8) | out8[i];
+    tr_add(r1 ^ (r2 << 1));
+    if (g_verbose) printf("OBS C01 reread %s.%s first=%llx second=%llx expected %llx then %llx\n", F->name, R->name, (unsigned long long)r1, (unsigned long long)r2, (unsigned long long)e1, (unsigned long long)e2);
+    if (r1 != e1 || r2 != e2) {
+        char key[200]; snprintf(key, sizeof key, "%s.%s:%s second read after the buffer changed", F->name, R->name, path ? R->getter : "GetField");
+        violation("C01", key, cs, "read 0x%llx, flipped field bit %d, read 0x%llx; expected 0x%llx then 0x%llx", (unsigned long long)r1, bit, (unsigned long long)r2, (unsigned long long)e1, (unsigned long long)e2);
+    }
+}
+
 static void c01_generic_case(int q, int off, int bits, int bgi, int64_t a)
 {
     /* window: quadlets q-1 .. q+3 (5 quadlets) inside a 64-byte object */
-    uint8_t raw[PRE + 8 + 40 + POST] __attribute__((aligned(16))), before[sizeof raw];
-    for (size_t i = 0; i < sizeof raw; i++) raw[i] = canary_byte((int)i);
+    uint8_t raw[PRE + 8 + GBUF + POST] __attribute__((aligned(16))), before[sizeof raw];
+    const size_t glen = q <= 6 ? 48 : GBUF, rsz = (size_t)HOFF + glen + POST;     /* a small object for descriptors near the start */
+    for (size_t i = 0; i < rsz; i++) raw[i] = canary_byte((int)i);
     uint8_t* pdu = raw + HOFF;          /* pdu base = quadlet 0 */
-    memset(pdu, BG[bgi], 40);
-    if (a >= 0) flip_bit(pdu, (unsigned)a);       /* a in 0..319 */
-    memcpy(before, raw, sizeof raw);
+    memset(pdu, BG[bgi], glen);
+    if (a >= 0) flip_bit(pdu, (unsigned)a);
+    memcpy(before, raw, rsz);
     unsigned boff = (unsigned)(q * 32 + off);
     uint64_t exp = ref_get(pdu, boff, (unsigned)bits);
     volatile uint64_t got = 0;
@@ -143,7 +170,7 @@ static void c01_generic_case(int q, int off, int bits, int bgi, int64_t a)
     SETCS("C01", 2, (long long)(q), (long long)(off), (long long)(bits), (long long)(bgi), (long long)((long long)a), 0);
     g_cnt.cases++;
     if (exp) g_cnt.nontrivial++;
-    hs_add(fnv(pdu, 40, (uint64_t)(q * 100000 + off * 100 + bits + 7)));
+    hs_add(fnv(pdu + (q > 1 ? (q - 1) * 4 : 0), 24, (uint64_t)(q * 100000 + off * 100 + bits + 7) * 8191u + (uint64_t)(a + 1)));
     TRY_CALL(got = w_gget((uint64_t)q, (uint64_t)off, (uint64_t)bits, pdu), {
         char key[128]; snprintf(key, sizeof key, "generic-reader q=%d off=%d bits=%d fault", q, off, bits);
         violation("C01", key, cs, "signal %d", g_fault_sig); return; });
@@ -154,7 +181,7 @@ static void c01_generic_case(int q, int off, int bits, int bgi, int64_t a)
         char key[128]; snprintf(key, sizeof key, "generic-reader off=%d bits=%d value", off, bits);
         violation("C01", key, cs, "expected=0x%llx got=0x%llx", (unsigned long long)exp, (unsigned long long)got);
     }
-    if (memcmp(before, raw, sizeof raw)) {
+    if (memcmp(before, raw, rsz)) {
         char key[128]; snprintf(key, sizeof key, "generic-reader off=%d bits=%d buffer-modified", off, bits);
         violation("C01", key, cs, "read modified memory");
     }
@@ -188,6 +215,21 @@ static void suite_c01(void)
             }
         }
     }
+    for (int fmt = 0; fmt < g_nfmts; fmt++) for (int fld = 0; fld < g_fmts[fmt].nf; fld++) {
+        if (!my_unit()) continue;
+        const RowField* R = &g_fmts[fmt].f[fld];
+        for (int path = 0; path <= R->hasg; path++) for (int bgi = 0; bgi < 4; bgi++) for (int bit = 0; bit < R->w; bit++) c01_reread_case(fmt, fld, path, bgi, bit);
+    }
+    if (my_unit()) for (int q = 0; q < 3; q++) for (int off = 0; off < 32; off += 5) for (int bits = 1; bits <= 64; bits += 7) {
+        uint8_t buf[64], out8[8]; memset(buf, 0xA5, sizeof buf);
+        unsigned k = (unsigned)(q * 32 + off);
+        uint64_t e1 = ref_get(buf, k, (unsigned)bits); volatile uint64_t r1 = 0; uint64_t r2 = 0;
+        TRY_CALL(r1 = w_gget2((uint64_t)q, (uint64_t)off, (uint64_t)bits, buf, k >> 3, 1u << (7 - (k & 7)), out8), { r1 = ~e1; });
+        uint64_t e2 = ref_get(buf, k, (unsigned)bits);
+        for (int i = 0; i < 8; i++) r2 = (r2 << 8) | out8[i];
+        g_cnt.cases++; g_cnt.transitions += 2;
+        if (r1 != e1 || r2 != e2) violation("C01", "generic-reader second read after the buffer changed", "C01:5:0:0:0:0:0:0", "q=%d off=%d bits=%d: 0x%llx then 0x%llx, expected 0x%llx then 0x%llx", q, off, bits, (unsigned long long)r1, (unsigned long long)r2, (unsigned long long)e1, (unsigned long long)e2);
+    }
     sample("C01 %s.%s by-identifier and via %s: one-hot walk over %d window bits x 4 backgrounds, then every value of the lattice FV(%d) placed in the field",
            g_fmts[13].name, g_fmts[13].f[11].name, g_fmts[13].f[11].getter, 8 * g_fmts[13].len + 64, g_fmts[13].f[11].w);
     /* generic shapes */
@@ -199,7 +241,22 @@ static void suite_c01(void)
         for (int bgi = 0; bgi < 4; bgi++) {
             c01_generic_case(q, off, bits, bgi, -1);
             /* flip every bit of quadlets q-1 .. q+3 */
-            for (int k = (q - 1) * 32; k < (q + 4) * 32 && k < 320; k++) c01_generic_case(q, off, bits, bgi, k);
+            for (int k = (q - 1) * 32; k < (q + 4) * 32; k++) c01_generic_case(q, off, bits, bgi, k);
+        }
+    }
+    /* descriptors far into the PDU: every start quadlet the 8-bit descriptor can name near its arithmetic boundaries */
+    {
+        static const int hq[] = {31, 32, 62, 63, 64, 65, 127, 128, 191, 192, 253, 254, 255};
+        static const int hoff[] = {0, 5, 16, 31}, hbits[] = {1, 8, 27, 32, 33, 59, 64};
+        for (unsigned qi = 0; qi < sizeof hq / sizeof hq[0]; qi++) for (int oi = 0; oi < 4; oi++) for (int bi = 0; bi < 7; bi++) {
+            if (!my_unit()) continue;
+            hs_reset();
+            int q = hq[qi];
+            for (int bgi = 0; bgi < 4; bgi++) {
+                c01_generic_case(q, hoff[oi], hbits[bi], bgi, -1);
+                for (int k = (q - 1) * 32; k < (q + 4) * 32; k++) c01_generic_case(q, hoff[oi], hbits[bi], bgi, k);
+                for (int k = 0; k < 96; k++) c01_generic_case(q, hoff[oi], hbits[bi], bgi, k);      /* wrap-around to the start of the PDU */
+            }
         }
     }
     sample("C01 generic reader: descriptor {quadlet 2, offset 27, bits 64} on background A5 with bit 91 flipped");
@@ -208,6 +265,8 @@ static void suite_c01(void)
 static void replay_c01(int sub, long long p[8])
 {
     if (sub == 2) c01_generic_case((int)p[0], (int)p[1], (int)p[2], (int)p[3], p[4]);
+    else if (sub == 4) c01_reread_case((int)p[0], (int)p[1], (int)p[2], (int)p[3], (int)p[4]);
+    else if (sub == 5) { g_nslices = 1; g_unit = 0; suite_c01(); }
     else if (sub == 3) {
         Obj o; const RowFmt* F = &g_fmts[p[0]];
         obj_fill(&o, F->len, BG[p[3]]);
@@ -321,35 +380,37 @@ static void suite_c02(void)
         }
     }
     sample("C02 Can.can_identifier via Avtp_Can_SetCanIdentifier: prior = background 5A with window bit 131 flipped, v = 0x20000001 (wider than 29 bits); whole object (16 canary + header + 32 trailing bytes) diffed against ref_set, then read back by both readers");
-    /* generic writer shapes */
-    static const int qs[3] = {1, 2, 6};
-    for (int qi = 0; qi < (g_lite ? 1 : 3); qi++) for (int off = 0; off < 32; off++) for (int bits = 0; bits <= 64; bits++) {
+    /* generic writer shapes: low quadlets with every offset/width, then a selection far into the PDU */
+    static const int qs[16] = {1, 2, 6, 31, 32, 62, 63, 64, 65, 127, 128, 191, 192, 253, 254, 255};
+    for (int qi = 0; qi < (g_lite ? 1 : 16); qi++) for (int off = 0; off < 32; off++) for (int bits = 0; bits <= 64; bits++) {
+        if (qi >= 3 && !((off == 0 || off == 5 || off == 16 || off == 31) && (bits == 1 || bits == 8 || bits == 27 || bits == 32 || bits == 33 || bits == 59 || bits == 64))) continue;
         if (!my_unit()) continue;
         hs_reset();
         int q = qs[qi];
         uint64_t m = mask_w((unsigned)bits);
         uint64_t vals[8] = {0, m, 0xA5A5A5A5A5A5A5A5ull, 1, ~0ull, bits < 64 ? (1ull << bits) : 2, 0x0123456789ABCDEFull, ~m};
-        for (int bgi = 0; bgi < 4; bgi++) for (int vi = 0; vi < 8; vi++) for (int k = -1; k < 320; k++) {
-            if (k >= 0 && (k < (q - 1) * 32 || k >= (q + 4) * 32)) continue;
-            uint8_t raw[PRE + 8 + 40 + POST] __attribute__((aligned(16))), exp[sizeof raw];
-            for (size_t i = 0; i < sizeof raw; i++) raw[i] = canary_byte((int)i);
+        for (int bgi = 0; bgi < 4; bgi++) for (int vi = 0; vi < 8; vi++) for (int k = -1; k < (q + 4) * 32; k++) {
+            if (k >= 0 && (k < (q - 1) * 32) && !(q > 6 && k < 96)) continue;
+            uint8_t raw[PRE + 8 + GBUF + POST] __attribute__((aligned(16))), exp[sizeof raw];
+            const size_t glen = q <= 6 ? 48 : GBUF, rsz = (size_t)HOFF + glen + POST;
+            for (size_t i = 0; i < rsz; i++) raw[i] = canary_byte((int)i);
             uint8_t* pdu = raw + HOFF;
-            memset(pdu, BG[bgi], 40);
+            memset(pdu, BG[bgi], glen);
             if (k >= 0) flip_bit(pdu, (unsigned)k);
-            memcpy(exp, raw, sizeof raw);
+            memcpy(exp, raw, rsz);
             ref_set(exp + HOFF, (unsigned)(q * 32 + off), (unsigned)bits, vals[vi] & m);
             char cs[160];
             SETCS("C02", 2, (long long)(q), (long long)(off), (long long)(bits), (long long)(bgi), (long long)(k), (long long)((unsigned long long)vals[vi]));
             g_cnt.cases++;
-            if (memcmp(exp, raw, sizeof raw)) g_cnt.nontrivial++;
-            hs_add(fnv(pdu, 40, vals[vi] + (uint64_t)(q * 100000 + off * 100 + bits)));
+            if (memcmp(exp, raw, rsz)) g_cnt.nontrivial++;
+            hs_add(fnv(pdu + (q > 1 ? (q - 1) * 4 : 0), 24, vals[vi] + (uint64_t)(q * 100000 + off * 100 + bits) * 8191u + (uint64_t)(k + 1)));
             int faulted = 0;
             TRY_CALL(w_gset((uint64_t)q, (uint64_t)off, (uint64_t)bits, pdu, vals[vi]), { faulted = 1; });
             g_cnt.transitions++;
-            tr_add(fnv(raw, sizeof raw, 0));
-            if (faulted || memcmp(exp, raw, sizeof raw)) {
+            tr_add(fnv(raw, rsz, 0));
+            if (faulted || memcmp(exp, raw, rsz)) {
                 char key[128]; snprintf(key, sizeof key, "generic-writer off=%d bits=%d %s", off, bits, faulted ? "fault" : "image");
-                char h1[81], h2[81]; hex(h1, pdu, 40); hex(h2, exp + HOFF, 40);
+                char h1[81], h2[81]; hex(h1, pdu + (q > 1 ? (q - 1) * 4 : 0), 24); hex(h2, exp + HOFF + (q > 1 ? (q - 1) * 4 : 0), 24);
                 violation("C02", key, cs, "v=0x%llx after=%s expected=%s", (unsigned long long)vals[vi], h1, h2);
             }
         }
@@ -362,13 +423,13 @@ static void replay_c02(int sub, long long p[8])
     if (sub == 0) c02_case((int)p[0], (int)p[1], (int)p[2], (int)p[3], p[4], (uint64_t)p[5]);
     else {
         int q = (int)p[0], off = (int)p[1], bits = (int)p[2], bgi = (int)p[3], k = (int)p[4];
-        uint8_t raw[PRE + 8 + 40 + POST] __attribute__((aligned(16)));
+        uint8_t raw[PRE + 8 + GBUF + POST] __attribute__((aligned(16)));
         for (size_t i = 0; i < sizeof raw; i++) raw[i] = canary_byte((int)i);
-        memset(raw + HOFF, BG[bgi], 40);
+        memset(raw + HOFF, BG[bgi], GBUF);
         if (k >= 0) flip_bit(raw + HOFF, (unsigned)k);
-        char h1[81]; hex(h1, raw + HOFF, 40); printf("OBS C02 generic before=%s\n", h1);
+        char h1[81]; hex(h1, raw + HOFF + (q > 1 ? (q - 1) * 4 : 0), 24); printf("OBS C02 generic before=%s\n", h1);
         w_gset((uint64_t)q, (uint64_t)off, (uint64_t)bits, raw + HOFF, (uint64_t)p[5]);
-        hex(h1, raw + HOFF, 40); printf("OBS C02 generic after =%s\n", h1);
+        hex(h1, raw + HOFF + (q > 1 ? (q - 1) * 4 : 0), 24); printf("OBS C02 generic after =%s\n", h1);
     }
 }
 
